@@ -176,9 +176,17 @@ fn match_single_node_while_skip_trivial<'p, 't: 'p, D: Doc + 't>(
     let Some(cand) = cand_children.peek() else {
       // if cand runs out, check remaining goal
       // if goal is skippable, it is a match, else a non match
-      return strictness
-        .should_skip_goal(goal_children)
-        .then_some(ControlFlow::Fallthrough);
+      let rest: Vec<_> = goal_children.collect();
+      if !strictness.should_skip_goal(&mut rest.iter().copied().peekable()) {
+        return None;
+      }
+      // a skipped named ellipsis captures nothing, which must agree with its other occurrences
+      for goal in rest {
+        if let Ok(Some(name)) = try_get_ellipsis_mode(goal) {
+          agg.match_ellipsis(Some(&name), vec![], 0)?;
+        }
+      }
+      return Some(ControlFlow::Fallthrough);
     };
     // try match goal node with candidate node
     match match_node_impl(goal_children.peek().unwrap(), cand, agg, strictness) {
